@@ -153,6 +153,12 @@ def run(ctx):
                 xq, yq, zq = s2c(lon * u.deg, lat * u.deg)
                 if not (float(xq.value) == float(x) and float(yq.value) == float(y) and float(zq.value) == float(z)):
                     prob("SphericalToCartesian gives different numbers for Quantity and plain inputs", {"lon": lon, "lat": lat})
+                # the same angles in other (and mixed) angular units
+                for ul, ub in ((u.rad, u.rad), (u.hourangle, u.deg), (u.deg, u.rad), (u.arcmin, u.arcsec)):
+                    xm, ym, zm = s2c((lon * u.deg).to(ul), (lat * u.deg).to(ub))
+                    if max(abs(float(xm.value) - float(x)), abs(float(ym.value) - float(y)), abs(float(zm.value) - float(z))) > 1e-11:
+                        prob(f"SphericalToCartesian gives different numbers for lon in {ul}, lat in {ub} than for the same angles in degrees",
+                             {"lon": lon, "lat": lat, "lon_unit": str(ul), "lat_unit": str(ub)})
         # poles and degenerate vectors
         for vec in ((0.0, 0.0, 1.0), (0.0, 0.0, -1.0), (0.0, 0.0, 0.0), (1.0, 0.0, 0.0), (0.0, 1.0, 0.0), (-1.0, 0.0, 0.0), (0.0, -1.0, 0.0),
                     (-0.0, 0.0, 1.0), (-0.0, -0.0, -1.0), (0.0, -0.0, 1.0), (-0.0, -0.0, 0.0)):      # signed zeros
